@@ -165,7 +165,7 @@ func Catalog() []Spec {
 	add("state-value", "statevalue:network-policy", func(g *G) any { return g.NetworkPolicyStateValue() })
 	add("state-value", "network-policy", func(g *G) any { return g.NetworkPolicy() })
 	add("state-value", "candidate-limiter-rule", func(g *G) any {
-		return isaac.NewFixedSuffrageCandidateLimiterRule(uint64(g.R.Intn(100)))
+		return isaac.NewFixedSuffrageCandidateLimiterRule(g.bCount(uint64(g.R.Intn(100))))
 	})
 
 	// block
@@ -217,7 +217,7 @@ func Catalog() []Spec {
 		Spec{Name: "address", Group: "misc", FixedTypeSize: base.AddressTypeSize, Gen: func(g *G) any { return g.Address() }},
 	)
 	add("misc", "node", func(g *G) any { return g.Node() })
-	add("misc", "params", func(g *G) any { return isaac.DefaultParams(g.NetworkID) })
+	add("misc", "params", func(g *G) any { return g.Params() })
 	specs = append(specs, Spec{Name: "operation-reason", Group: "misc", NilIsValidArg: true, Gen: func(g *G) any {
 		return base.NewBaseOperationProcessReason("reason " + g.Str(9))
 	}})
@@ -314,7 +314,7 @@ func Catalog() []Spec {
 	})
 	hdr("event-logging", func(g *G) any {
 		return launch.NewEventLoggingHeader(
-			launch.AllEventLogger, [2]int64{1000 + g.R.Int63n(1000), g.R.Int63n(1000)}, uint64(1+g.R.Intn(100)),
+			launch.AllEventLogger, [2]int64{g.bInt(1000 + g.R.Int63n(1000)), g.bInt(g.R.Int63n(1000))}, g.bCount(uint64(1+g.R.Intn(100))),
 			g.R.Intn(2) == 0, g.Priv().Publickey())
 	})
 	hdr("read-node", func(g *G) any { return launch.NewReadNodeHeader("key."+g.Str(5), g.Priv().Publickey()) })
@@ -373,7 +373,7 @@ func Catalog() []Spec {
 		_ = u.SetLastManifest(g.Manifest())
 		_ = u.SetSuffrageHeight(g.Height())
 		_ = u.SetNetworkPolicy(g.NetworkPolicy())
-		_ = u.SetLocalParams(isaac.DefaultParams(g.NetworkID))
+		_ = u.SetLocalParams(g.Params())
 		_ = u.SetConnInfo(g.ConnInfo().String())
 
 		nodes := make([]base.Node, len(g.Nodes))
